@@ -50,7 +50,8 @@ class State:
         self.meta = {}
     def clone(self):
         s = State()
-        s.env = {k: copyval(v) for k, v in self.env.items()}
+        memo = {}
+        s.env = {k: copyval(v, memo) for k, v in self.env.items()}
         s.names = dict(self.names)
         s.heap = dict(self.heap)
         s.ghost = dict(self.ghost)
